@@ -103,7 +103,7 @@ def _pairs_event(cfg, api, np_, pairs, durs, ongrid):
 
 
 PLAIN = {'bp_unit': None, 'ph_unit': None, 'adtype': 'float64', 'sdtype': 'float64', 'fdtype': 'float64',
-         'layout': 'plain', 'pf_int': False}
+         'layout': 'plain', 'pf_int': False, 'bp_dtype': None, 'ph_dtype': None}
 
 
 def choose_how(i, cfg, aunit, funit, f_hz, fp_hz):
@@ -121,6 +121,14 @@ def choose_how(i, cfg, aunit, funit, f_hz, fp_hz):
         how['adtype'] = 'float32'
     if aunit == 'deg' and i % 7 in (3, 4) and exact_in(cfg['bp'], K, 'int64') and exact_in(cfg['ph'], K, 'int64'):
         how['sdtype'] = 'int64'
+    elif i % 7 == 6 and exact_in(cfg['bp'], K, 'int64'):
+        # an integer-typed beam position in whole degrees next to a float phase in radians (two operands of one sum
+        # in different units and dtypes)
+        how['bp_dtype'], how['bp_unit'] = 'int64', 'deg'
+        how['ph_unit'] = 'rad'
+    elif i % 7 == 2 and exact_in(cfg['ph'], K, 'int64'):
+        how['ph_dtype'], how['ph_unit'] = 'int64', 'deg'
+        how['bp_unit'] = 'rad'
     elif i % 6 == 1:
         how['bp_unit'] = other
     elif i % 6 == 4:
@@ -148,7 +156,8 @@ def pulse_var(fp_hz, unit, as_int=False):
 def _is_dtype_refusal(exc, how):
     """An implementation may refuse integer / single-precision operands with a dtype error (weakest reading:
     the property names units, not dtypes); it must not answer wrongly."""
-    exotic = how['adtype'] != 'float64' or how['sdtype'] != 'float64' or how['fdtype'] != 'float64' or how['pf_int']
+    exotic = (how['adtype'] != 'float64' or how['sdtype'] != 'float64' or how['fdtype'] != 'float64' or how['pf_int']
+              or how.get('bp_dtype') or how.get('ph_dtype'))
     return exotic and isinstance(exc, (sc.DTypeError, TypeError))
 
 
@@ -233,7 +242,7 @@ def replay_config(ctx, rec, cfg, aunit, funit, fp_hz, nps, order, expected=None,
     rc = _ratio_class(cfg['num'], cfg['den'])
     desc = {'config': cfg, 'angle_unit': aunit, 'frequency_unit': funit, 'pulse_frequency_Hz': str(fp_hz),
             'slit_order': order, 'handed_over_as': {k: v for k, v in how.items() if v != PLAIN[k]}}
-    mk = {k: how[k] for k in ('bp_unit', 'ph_unit', 'adtype', 'sdtype', 'fdtype', 'layout')}
+    mk = {k: how[k] for k in ('bp_unit', 'ph_unit', 'adtype', 'sdtype', 'fdtype', 'layout', 'bp_dtype', 'ph_dtype')}
     disk, exc = _call(ctx, 'DiskChopper', None,
                       lambda: make_disk(K, cfg['slits'], cfg['bp'], cfg['ph'], cfg['cw'], f_hz, aunit, funit, order, **mk))
     if exc is not None:
